@@ -337,7 +337,7 @@ pub fn run(rep: &mut Report) {
     }
     // circuit-derived seeds
     let cfams: Vec<(&str, usize, Vec<quizx::gate::Gate>, usize, usize)> = if quick {
-        vec![("K(2,3,A_ct)", 2, alpha_ct(2), 3, 1), ("K(3,2,A_full)", 3, alpha_full(3), 2, 1), ("K(3,3,A_pp)", 3, alpha_pp(3), 3, 1)]
+        vec![("K(2,3,A_ct)", 2, alpha_ct(2), 3, 1), ("K(3,2,A_full)", 3, alpha_full(3), 2, 1), ("K(3,3,A_pp)", 3, alpha_pp(3), 3, 1), ("K(2,2,A_tol)", 2, alpha_tol(2), 2, 1)]
     } else {
         vec![("K(2,4,A_ct)", 2, alpha_ct(2), 4, 1), ("K(3,3,A_ct)", 3, alpha_ct(3), 3, 2), ("K(3,2,A_full)x2", 3, alpha_full(3), 2, 2), ("K(3,5,A_cnot)", 3, alpha_cnot(3), 5, 1), ("K(2,3,A_tol)", 2, alpha_tol(2), 3, 1), ("K(3,4,A_pp)", 3, alpha_pp(3), 4, 1), ("K(4,3,A_pp)", 4, alpha_pp(4), 3, 1)]
     };
